@@ -75,7 +75,7 @@ def scp_symbols(tier):
     return syms
 
 
-def scp_run(records, dest_exists=True, preserve=False):
+def scp_run(records, dest_exists=True, preserve=False, errhandler=False):
     w, dest = prep()
     if not dest_exists:
         shutil.rmtree(dest)
@@ -114,7 +114,8 @@ def scp_run(records, dest_exists=True, preserve=False):
         pair.handshake()
         mon = fsmon.start(dest if dest_exists else os.path.dirname(dest))
         try:
-            t = loop.create_task(asyncssh.scp((pair.c, 'src'), dest, recurse=True, preserve=preserve))
+            kw = dict(error_handler=lambda exc: None) if errhandler else {}
+            t = loop.create_task(asyncssh.scp((pair.c, 'src'), dest, recurse=True, preserve=preserve, **kw))
             loop.flush_all()
             if not t.done():
                 # the hostile source went silent: drop the connection, the sink must then finish
@@ -146,16 +147,17 @@ def scp_worker(job):
     try:
         for records in job:
             preserve = bool(records) and records[0] == ('preserve',)
-            if preserve:
+            errh = bool(records) and records[0] == ('errhandler',)
+            if preserve or errh:
                 records = records[1:]
-            viol = scp_run(records, preserve=preserve)
-            acc.add(core.digest(('scp', records, preserve)), transitions=len(records),
+            viol = scp_run(records, preserve=preserve, errhandler=errh)
+            acc.add(core.digest(('scp', records, preserve, errh)), transitions=len(records),
                     sample={'scp_records': [[r[0]] + [x.decode('latin1') for x in r[1:]] for r in records]}
                     if len(records) == 3 and records[0] == ('D', b'a') else None)
             for k, d in viol:
-                acc.violation('download:%s:scp%s:%s' % (k, '-p' if preserve else '', ''.join(r[0] for r in records)),
+                acc.violation('download:%s:scp%s:%s' % (k, '-p' if preserve else '-errhandler' if errh else '', ''.join(r[0] for r in records)),
                               '%s ; records=%r preserve=%r' % (d, records, preserve),
-                              {'kind': 'dl-scp', 'records': ([['preserve']] if preserve else []) + [[r[0]] + [x.decode('latin1') for x in r[1:]] for r in records]})
+                              {'kind': 'dl-scp', 'records': ([['preserve']] if preserve else [['errhandler']] if errh else []) + [[r[0]] + [x.decode('latin1') for x in r[1:]] for r in records]})
     finally:
         shutil.rmtree(wdir(), ignore_errors=True)
     return acc
@@ -233,6 +235,11 @@ def sftp_run(listing, nested, api):
                 coro = sftp.get(b'/dir', dest.encode(), recurse=True, follow_symlinks=False, preserve=True)
             elif api == 'mget-preserve':
                 coro = sftp.mget(b'/dir/*', dest.encode(), recurse=True, preserve=True)
+            elif api == 'get-errhandler':
+                # the caller collects errors instead of stopping at the first one
+                coro = sftp.get(b'/dir', dest.encode(), recurse=True, error_handler=lambda exc: None)
+            elif api == 'mget-errhandler':
+                coro = sftp.mget(b'/dir/*', dest.encode(), recurse=True, preserve=True, error_handler=lambda exc: None)
             elif api == 'get-follow':
                 coro = sftp.get(b'/dir', dest.encode(), recurse=True, follow_symlinks=True)
             else:
@@ -296,11 +303,11 @@ def run(tier, seed):
                 if tier == 'thorough' or b[0] in ('C', 'D', 'E'):
                     seqs.append((d, b, c))
     short = [q for q in seqs if len(q) <= 2]
-    seqs += [(('preserve',),) + q for q in short] + [(('preserve',), ('T',)) + q for q in short if q and q[0][0] in 'CD']
+    seqs += [(('errhandler',),) + q for q in short] + [(('preserve',),) + q for q in short] + [(('preserve',), ('T',)) + q for q in short if q and q[0][0] in 'CD']
     acc = core.pmap(scp_worker, core.rotate([seqs[i::64] for i in range(64)], seed))
     ents = [(n, k) for n in NAMES for k in ('f', 'd', 'l')]
     jobs = []
-    for api in ('get', 'mget', 'get-follow', 'get-preserve', 'mget-preserve'):
+    for api in ('get', 'mget', 'get-follow', 'get-preserve', 'mget-preserve', 'get-errhandler', 'mget-errhandler'):
         for e in ents:
             for nested in ((b'inner',), (b'../z',), (b'/abs/z',)):
                 if e[1] != 'd' and nested != (b'inner',):
